@@ -108,6 +108,7 @@ ATTR = [
     (r"^diagnosis-.*timeout", ["C04", "C08"]),
     (r"^diagnosis", ["C04"]),
     (r"^run-end-early$", ["C02", "C04", "C09"]),
+    (r"^run-end-early-eligible-waiting$", ["C02", "C04", "C09", "C12"]),
     (r"^run-(end|exc)-", ["C04", "C10"]),
     # (the nested scheduler is over for its parent before its own run is: C10)
     (r"^cancelled-run-ends-early-parent-aborted-critical$", ["C11", "C10", "C05"]),
@@ -140,6 +141,9 @@ def attribute(code):
         # the refused event belongs to a forever job, or to a job inside a forever nested scheduler
         code = code[:-len("-under-forever")]
         extra = ["C09"]
+    if code.endswith("-leaving-forever-jobs"):
+        code = code[:-len("-leaving-forever-jobs")]
+        extra = extra + ["C09"]
     if code.endswith("-by-nested"):
         # the parent was (or should have been) aborted by the failure of a critical nested scheduler
         code = code[:-len("-by-nested")]
@@ -261,12 +265,17 @@ def shard_job(args):
                 raise tlc.TlcFailure("trace accepted by the diagnosis pass only")
             pos, items = front.get(j + 1, (0, {("?", 0, "no-frontier")}))
             syms = front.get(("sym", j + 1), [])
-            if not scenario.admissible(traces[i]["cfg"]):
-                # a hang is no symptom of C03 outside its hypothesis
-                syms = [p for p in syms if p != "C03"]
             rejected.append({"scenario": scenarios[i], "trace": traces[i],
                              "at": pos, "frontier": sorted(items),
                              "symptoms": syms})
+        # outside the hypothesis of C03 a hang is a symptom of C03 only if the specification,
+        # on that very scenario, cannot hang
+        doubt = [r for r in rejected if "C03" in r["symptoms"] and not scenario.admissible(r["trace"]["cfg"])]
+        if doubt:
+            may = spec_can_hang([r["trace"] for r in doubt], workdir)
+            for idx2, r in enumerate(doubt):
+                if idx2 in may:
+                    r["symptoms"] = [p for p in r["symptoms"] if p != "C03"]
     os.remove(trf)
     return traces, rejected, gen, dist
 
@@ -765,6 +774,27 @@ def predict(traces, workdir):
             misses.append((tr, "outcome-not-allowed", len(outs)))
     gen, dist = tlc.stats(out)
     return misses, gen, dist, sizes
+
+
+STUCKLINE = re.compile(r'^"STUCK\|(\d+)"$')
+
+
+def spec_can_hang(traces, workdir):
+    """-> indices of the traces on whose scenario the specification has a reachable stuck state
+    (all of them when the exploration cannot be completed)"""
+    scf = os.path.join(workdir, "hang-%d.json" % id(traces))
+    with open(scf, "w") as out:
+        json.dump([{"sid": i + 1, "cfg": t["cfg"]} for i, t in enumerate(traces)], out)
+    try:
+        rc, out = tlc.run("OrchestraPredict.tla", "OrchestraPredict.cfg", env={"TRACE_FILE": scf},
+                          workers=1, scratch=workdir, heap="3g", timeout=150)
+    except tlc.TlcFailure:
+        return set(range(len(traces)))
+    finally:
+        os.remove(scf)
+    if "Model checking completed" not in out:
+        return set(range(len(traces)))
+    return {int(m.group(1)) - 1 for m in (STUCKLINE.match(line) for line in out.splitlines()) if m}
 
 
 def predictable(trace):
